@@ -1,6 +1,6 @@
 (* C01 — case type and the two boolean functions evaluated on generated cases. *)
 From Coq Require Import List Bool ZArith.
-From V Require Import C05.Model C01.Model C01.ModMap.
+From V Require Import C05.Model C06.Model C06.LookAhead C06.Search C01.Model C01.ModMap.
 Import ListNotations.
 Open Scope Z_scope.
 
@@ -8,7 +8,8 @@ Record ibead := { i_key : Z; i_name : Z; i_resid : Z; i_cg : Z; i_w : list (Z * 
 
 Inductive case :=
 | CMap (M : mapping) (m : molecule) (impl : list (list (Z * list (Z * Z))))      (* Mapping.map: the set of placements *)
-| CDo (Ms : list mapping) (m : molecule)
+| CDo (fast : bool)                                                               (* enumerate placements with C06's proved backtracking search (shipped data) *)
+      (Ms : list mapping) (m : molecule)
       (found : list pmatch)                                                      (* placements in the order the implementation found them *)
       (beads : list ibead) (iedges : list (Z * Z)) (iinters : list (Z * (list Z * Z)))
       (w_overlap w_unmapped : bool)
@@ -69,16 +70,35 @@ Definition corr (k : case) : bool :=
          | _, _ => false
          end
   | CMap M m impl => sets_same (map (fun p => p_m2b (translate M p)) (mmatches M m)) impl
-  | CDo Ms m found beads iedges iinters wo wu =>
+  | CDo _ Ms m found beads iedges iinters wo wu =>
       let o := do_mapping m found in
       list_eqb bead_corr (out_beads o) beads && edges_same (out_edges o) iedges
-      && forallb (fun t => list_eqb inter_eqb (filter (fun i => Z.eqb (fst i) t) (out_inters o)) (filter (fun i => Z.eqb (fst i) t) iinters)) [1; 2]
+      && forallb (fun t => list_eqb inter_eqb (filter (fun i => Z.eqb (fst i) t) (out_inters o)) (filter (fun i => Z.eqb (fst i) t) iinters))
+                 (map fst (out_inters o) ++ map fst iinters)
       && Bool.eqb (warn_overlap o) wo && Bool.eqb (warn_unmapped o) wu
   end.
 
 (* ---------- the statement, evaluated directly (no incremental tables, no merge) ---------- *)
 Definition all_placements (Ms : list mapping) (m : molecule) : list pmatch :=
   flat_map (fun M => map (translate M) (mmatches M m)) Ms.
+
+(* the same placements found with the backtracking search of C06 (proved sound and complete for induced sub-graph
+   isomorphisms of coloured graphs): colour = (atom name, residue name); the same-residue parity of bonds is filtered after *)
+Definition colour_of (name resname : Z) : Z := name * 1000 + resname.
+Definition pattern_graph (M : mapping) : graph :=
+  {| g_nodes := map (fun n => (f_key n, colour_of (f_name n) (f_resname n))) (m_from M);
+     g_edges := map (fun e => (fst e, snd e, 1)) (m_fedges M) |}.
+Definition mol_graph (m : molecule) : graph :=
+  {| g_nodes := map (fun a => (a_key a, colour_of (a_name a) (a_resname a))) (atoms m);
+     g_edges := map (fun e => (fst e, snd e, 1)) (bonds m) |}.
+Definition parity_ok (M : mapping) (m : molecule) (p : placement) : bool :=
+  forallb (fun e => match find (fun n => Z.eqb (f_key n) (fst e)) (m_from M), find (fun n => Z.eqb (f_key n) (snd e)) (m_from M) with
+                    | Some a, Some b => Bool.eqb (Z.eqb (f_resid a) (f_resid b)) (Z.eqb (mresid m p a) (mresid m p b))
+                    | _, _ => false end) (m_fedges M).
+Definition mmatches_fast (M : mapping) (m : molecule) : list placement :=
+  filter (parity_ok M m) (find_isomorphisms (pattern_graph M) (mol_graph m) [] (fun l _ => hd 0 l)).
+Definition all_placements_with (fast : bool) (Ms : list mapping) (m : molecule) : list pmatch :=
+  if fast then flat_map (fun M => map (translate M) (mmatches_fast M m)) Ms else all_placements Ms m.
 
 Definition keys_of (pm : pmatch) : list Z := map fst (p_m2b pm).
 
@@ -159,8 +179,8 @@ Definition prop (k : case) : bool :=
   | CMap M m impl =>
       (* every reported placement fits, every fitting placement is reported, once *)
       sets_same (map (fun p => p_m2b (translate M p)) (mmatches M m)) impl
-  | CDo Ms m _ beads iedges iinters wo wu =>
-      let all := all_placements Ms m in
+  | CDo fast Ms m _ beads iedges iinters wo wu =>
+      let all := all_placements_with fast Ms m in
       let shared := existsb (fun pq => existsb (fun u => zmem u (keys_of (snd pq))) (keys_of (fst pq))) (pairs all) in
       let covered := flat_map keys_of all in
       (* warnings *)
@@ -212,6 +232,6 @@ Definition prop (k : case) : bool :=
                      (flat_map (fun po => map (fun ti => (fst ti, (map (new_key (fst po) (snd po)) (fst (snd ti)), snd (snd ti))))
                                               (b_inters (p_block (fst po)))) lay) in
                 forallb (fun t => list_eqb inter_eqb (filter (fun i => Z.eqb (fst i) t) expected_inters)
-                                                     (filter (fun i => Z.eqb (fst i) t) iinters)) [1; 2])
+                                                     (filter (fun i => Z.eqb (fst i) t) iinters)) (map fst expected_inters ++ map fst iinters))
           else true)
   end.
